@@ -722,6 +722,7 @@ func genCases(args []string) {
 	tier := fs.String("tier", "quick", "quick|thorough")
 	tbl := fs.String("tables", "", "ndjson of TLC-enumerated table shapes (rows x keys, present/absent)")
 	het := fs.String("hetero", "", "ndjson of TLC-enumerated column profiles (cell kind per row)")
+	flc := fs.String("floats", "", "ndjson of TLC-enumerated float shape classes (significant digits x decimal exponent x sign x pattern)")
 	fs.Parse(args)
 	r := rand.New(rand.NewSource(seed()))
 	w := bufio.NewWriterSize(os.Stdout, 1<<20)
@@ -765,6 +766,25 @@ func genCases(args []string) {
 	// (0d) size classes of the fixed tables
 	for _, sc := range sizeCases(quick) {
 		emit(sc.tree, sc.o, sc.p, "size")
+	}
+	// (0e) floats of every shape class: six per array, and as member values
+	{
+		fl := classFloats(*flc)
+		for i := 0; i < len(fl); i += 6 {
+			j := i + 6
+			if j > len(fl) {
+				j = len(fl)
+			}
+			vs := []any{}
+			kv := []any{}
+			for k, f := range fl[i:j] {
+				vs = append(vs, aFlt(f))
+				kv = append(kv, string(rune('a'+k)), aFlt(f))
+			}
+			n := i / 6
+			emit(aArr(vs...), optsOf([]int{0, 2, 8 + 1, 64 + 4}[n%4]), []pcfg{pcfgOf(n % 32)}, "fclass")
+			emit(aObj(kv...), optsOf([]int{8, 8 + 2, 8 + 64}[n%3]), []pcfg{pcfgOf((n + 16) % 32)}, "fclass")
+		}
 	}
 	// (1) TLC shapes x leaves x options: every shape meets every option bit in both polarities over the run
 	var shapes []shape
@@ -1306,5 +1326,63 @@ func sizeCases(quick bool) []deepCase {
 			}
 		}
 	}
+	return res
+}
+
+// ---------------------------------------------------------------- floats by shape class (C04 and C10)
+type floatClass struct {
+	Sig int    `json:"sig"`
+	Exp int    `json:"exp"`
+	Neg bool   `json:"neg"`
+	Pat string `json:"pat"`
+}
+
+// classFloats reads the TLC-enumerated classes, writes each as the decimal text d.ddd...e(exp) with the wanted number of
+// significant digits and returns the float64 nearest to each text (duplicates, zeros and infinities dropped).
+func classFloats(path string) []float64 {
+	if path == "" {
+		return nil
+	}
+	f, err := os.Open(path)
+	if err != nil {
+		panic(err)
+	}
+	var res []float64
+	seen := map[float64]bool{}
+	readLines(f, func(l []byte) {
+		var c floatClass
+		if err := json.Unmarshal(l, &c); err != nil {
+			panic(err)
+		}
+		ds := make([]byte, c.Sig)
+		for i := range ds {
+			switch c.Pat {
+			case "nines":
+				ds[i] = '9'
+			case "ones":
+				ds[i] = '1'
+			default:
+				ds[i] = "1234567890123456789"[i%19]
+			}
+		}
+		if c.Pat == "nines" && c.Sig > 1 {
+			ds[c.Sig-1] = '7' // keep the last digit significant in the shortest form
+		}
+		txt := string(ds[:1])
+		if c.Sig > 1 {
+			txt += "." + string(ds[1:])
+		}
+		txt += "e" + strconv.Itoa(c.Exp)
+		if c.Neg {
+			txt = "-" + txt
+		}
+		v, err := strconv.ParseFloat(txt, 64)
+		if err != nil || v == 0 || math.IsInf(v, 0) || seen[v] {
+			return
+		}
+		seen[v] = true
+		res = append(res, v)
+	})
+	sort.Float64s(res)
 	return res
 }
